@@ -302,7 +302,7 @@ package vm
 // multiplier (the product has to fit the 64-bit field; a negative limit means no limit)
 //@ prop C12
 //@ func (*VM).SetGasLimit
-//@ requires v != nil
+//@ requires[nopanic] v != nil
 //@ modifies v.gasLimit
 //@ ensures[exact] datoshi > 0 ==> v.gasLimit == datoshi * ExecFeeFactorMultiplier
 //@ ensures[unlimited] datoshi <= 0 ==> v.gasLimit == datoshi
